@@ -214,6 +214,20 @@ class _State:
     def block(self, stmts):
         for st in stmts:
             self.stmt(st)
+            if self._ends(st):
+                break  # `if not inplace: ...; return copy` under inplace=False: what follows runs for the other value only
+
+    def _ends(self, st) -> bool:
+        """control never reaches the statement after `st` (under the literal flag bindings of this context)"""
+        if isinstance(st, (ast.Return, ast.Raise, ast.Continue, ast.Break)):
+            return True
+        if isinstance(st, ast.If):
+            f = self.fold(st.test)
+            arms = [st.body] if f is True else ([st.orelse] if f is False else [st.body, st.orelse])
+            return all(bool(a) and any(self._ends(x) for x in a) for a in arms)
+        if isinstance(st, (ast.With, ast.AsyncWith)):
+            return any(self._ends(x) for x in st.body)
+        return False
 
     def fold(self, test) -> Optional[bool]:
         if isinstance(test, ast.Constant):
@@ -998,6 +1012,23 @@ def check_deepcopy(ctx, res: Result, dotted: str, rule="E-FRESHCOPY"):
                 res.violation(rule, fi.short, norm(n), "deep:" + src, f"the copy receives a one-level copy of {src}, whose values are mutable (lists / metadata dicts): they are shared between the copy and the original, so an in-place update of one shows up in the other", loc(fi, n))
             if shared:
                 continue
+            # ---- complete: a copy assembled attribute by attribute on a freshly CONSTRUCTED object carries every attribute the
+            # constructor initialises; one that is left at its constructor default (`_next_edge_id` back at 0 while the tables
+            # already use ids 0..k-1) makes the copy hand out ids that are still alive
+            ctor = [a for a in walk_no_nested(fi.node) if isinstance(a, ast.Assign) and len(a.targets) == 1 and isinstance(a.targets[0], ast.Name) and a.targets[0].id == obj and isinstance(a.value, ast.Call)]
+            built_fresh = ctor and all(isinstance(a.value.func, ast.Name) and a.value.func.id[:1].isupper() or (isinstance(a.value.func, ast.Call) and norm(a.value.func.func) == "type") for a in ctor)
+            assigned = {n.targets[0].attr for n in walk_no_nested(fi.node) if isinstance(n, ast.Assign) and len(n.targets) == 1 and isinstance(n.targets[0], ast.Attribute) and isinstance(n.targets[0].value, ast.Name) and n.targets[0].value.id == obj}
+            through_api = any(isinstance(c, ast.Call) and isinstance(c.func, ast.Attribute) and isinstance(c.func.value, ast.Name) and c.func.value.id == obj for c in walk_no_nested(fi.node))
+            if built_fresh and assigned and fi.cls is not None:
+                kw_given = {k.arg for a in ctor for k in a.value.keywords if k.arg}
+                init = fi.cls.init_attrs()
+                missing = [a_ for a_ in init if a_ not in assigned and a_.lstrip("_") not in kw_given and a_ not in kw_given]
+                if missing and not through_api:
+                    res.violation(rule, fi.short, norm(r), "complete:" + missing[0], f"the copy is assembled attribute by attribute on a fresh object, but {', '.join('`' + m + '`' for m in missing[:3])} is never carried over: it stays at its constructor default (an edge-id counter back at 0 while the copied tables already use ids 0..k-1 makes the next insertion into the copy overwrite a live record)", loc(fi, r))
+                    continue
+                if not missing:
+                    res.ok(rule, fi.short, norm(r), "complete", loc(fi, r))
+                    continue
         # copy rebuilt from the binary snapshot: h.populate_from_dict(copy.deepcopy(self.expose_data_structures()))
         if isinstance(r.value, ast.Name) and fi.cls is not None and _snapshot_copy(ctx, res, v, fi, r, rule):
             continue
